@@ -405,6 +405,12 @@ def gen_c05(tier, seed):
             d["oc"] = ",".join("%d:%d" % (k, rng.choice([0, 1, 9, 12345])) for k in rng.sample([0, 1, 2, 3], rng.randrange(1, 3)))
         if d.get("ishape") == "u" and rng.random() < 0.7:
             d["countas"] = sorted(rng.sample([0, 1, 2, 3], rng.randrange(1, 3)))
+        if ("ic" in d or "countas" in d) and rng.random() < 0.25:
+            # a constant counter set after the per-input counters, sharing at least one kind with them
+            kinds = set(d.get("ic", [])) | set(d.get("countas", []))
+            ks = set(rng.sample(sorted(kinds), rng.randrange(1, len(kinds) + 1))) | ({rng.randrange(4)} if rng.random() < 0.5 else set())
+            d["bc"] = ",".join("%d:%d" % (k, rng.choice([0, 1, 7, 77, 1 << 40])) for k in sorted(ks))
+            d["bclate"] = 1
         r = rng.random()
         if r < 0.05:
             d["max"] = 0
